@@ -1,6 +1,7 @@
 package props
 
 import (
+	"astverif/crcgate"
 	"astverif/demuxrules"
 	"astverif/extrarules"
 	"astverif/ownership"
@@ -30,5 +31,7 @@ func c19(c *Ctx) {
 		"a packet buffer built before all options are applied may miss the skipper")
 	// a unit handed to the PacketsParser stays what it was: the accumulator never keeps the array it handed out (rule (c) of C16)
 	ownership.AccumulatorAlias(c.P, r)
+	// a failing PacketsParser substitutes nothing: data never travel with an error (rule C09c)
+	crcgate.NoDataWithoutCheck(c.P, r)
 	r.Floor("C19", "obligations", len(r.Obls), 15)
 }
